@@ -24,7 +24,7 @@ MODULES = ['C01']
 ROOT = os.path.dirname(os.path.dirname(os.path.abspath(__file__)))
 
 
-def prad_ratio(m, ground, nth=24, nph=32):
+def prad_ratio(m, ground, nth=24, nph=32, pwr=None):
     """(1/4 pi) * integral of the linear total gain over the sphere (upper hemisphere over ground)"""
     xs, ws = np.polynomial.legendre.leggauss(nth)
     if ground:
@@ -33,7 +33,8 @@ def prad_ratio(m, ground, nth=24, nph=32):
         ct, wt = xs, ws
     th = np.degrees(np.arccos(ct))
     ph = np.arange(nph) * 360.0 / nph
-    m.compute_far_field(farlib.DirAngles(th), farlib.DirAngles(ph))
+    # the gain pattern (dBi) does not depend on a requested power level
+    m.compute_far_field(farlib.DirAngles(th), farlib.DirAngles(ph), **({} if pwr is None else dict(pwr=pwr)))
     g = np.array(m.far_field.gain)[..., 2]
     lin = np.where(g <= -900, 0.0, 10 ** (g / 10))
     return float(np.sum(lin * wt[:, None]) * (2 * np.pi / nph) / (4 * np.pi))
@@ -214,7 +215,9 @@ def evaluate(case):
     pz0 = float(np.sum(0.5 * ((Z0 @ m.current) / c * np.conj(m.current)).real))
     identity = float(abs(psrc - pl - pz0) / app)
     tie['power_attr'] = float(abs(psrc - P) / app)
-    pr = prad_ratio(m, ground) * P
+    # a third of the cases ask for the pattern at a power level of their own (a function of the case)
+    hp = int(abs(P) * 1e9) % 3
+    pr = prad_ratio(m, ground, pwr=[None, 100.0, 0.37][hp]) * P
     out = dict(dev=(P - pl - pr) / app, app=app, P=P, loads=pl, rad=pr, identity=identity, tie=tie,
                cond=antgen.cond(m), lossy=env in ('real1', 'real2', 'radials'))
     if out['lossy'] and out['dev'] < -0.015:
